@@ -20,7 +20,7 @@ from .. import facts as F
 from .. import census as CEN
 from ..models import len_term
 from . import serve_model as SM
-from .common import where, short, impl_fn, inherent_fn, aggregates, calls_named, cons_zone
+from .common import where, short, impl_fn, inherent_fn, aggregates, calls_named, cons_zone, boolish, helper_inline
 from .multipart import buf_pieces
 
 CONFIGS_QUICK = ["dir"]
@@ -31,13 +31,13 @@ def roles(ctx):
     from ..check import FailClosed
     dirs = [a for a in ctx.facts.adts.values() if a["local"] and a["kind"] == "struct" and
             any("RawFd" in f["ty"] or f["ty"] == "i32" for f in a["variants"][0]["fields"]) and
-            any(f["ty"] == "bool" for f in a["variants"][0]["fields"])]
+            any(boolish(ctx, f["ty"]) for f in a["variants"][0]["fields"])]
     if len(dirs) != 1:
         raise FailClosed("base-directory struct (raw fd + bool) not found uniquely (is the `dir` feature analysed?)")
     d = dirs[0]
     R = {"dir": d["path"]}
     for f in d["variants"][0]["fields"]:
-        if f["ty"] == "bool":
+        if boolish(ctx, f["ty"]):
             R["auto_f"] = f["name"]
         else:
             R["fd_f"] = f["name"]
@@ -46,7 +46,7 @@ def roles(ctx):
         raise FailClosed("pub fn get on %s not found" % R["dir"])
     R["get"] = get[0]
     node = [a for a in ctx.facts.adts.values() if a["local"] and a["kind"] == "struct" and
-            any(f["ty"] == "std::fs::Metadata" for f in a["variants"][0]["fields"]) and sum(1 for f in a["variants"][0]["fields"] if f["ty"] == "bool") == 2]
+            any(f["ty"] == "std::fs::Metadata" for f in a["variants"][0]["fields"]) and sum(1 for f in a["variants"][0]["fields"] if boolish(ctx, f["ty"])) == 2]
     if len(node) != 1:
         raise FailClosed("node struct (file, metadata, two bools) not found uniquely")
     R["node"] = node[0]["path"]
@@ -180,6 +180,47 @@ def r3_validator(ctx, R):
     ctx.floor("C19.R3", sum(1 for k in kinds if kinds[k]), 5, what="row kinds of the validator (NUL, absolute, `..`, Ok, loop)")
 
 
+def _capture_type(ctx, closure_def, name):
+    """declared type of a closure's captured variable (by capture name)"""
+    b = ctx.facts.bodies.get(closure_def)
+    if not b:
+        return ""
+    # the closure body's debug info names its captures: `debug name => (_1.k: ty)`
+    for d in b.get("debug", []) or []:
+        pl = d.get("place", {})
+        if d.get("name") == name and pl.get("local") == 1 and pl.get("proj"):
+            return pl.get("ty", {}).get("s", "")
+    return ""
+
+
+def _only_from(ctx, fn, root):
+    """fn is `root` itself, one of its closures, or a private crate-local function all of whose (transitive) callers are"""
+    seen = set()
+    work = [fn]
+    callers = {}
+    for cb, ci, ct in ctx.facts.all_calls():
+        for k in ("res_path", "path"):
+            nm = ct["callee"].get(k)
+            if nm in ctx.facts.bodies:
+                callers.setdefault(nm, set()).add(cb["name"])
+                break
+    while work:
+        f = work.pop()
+        if f in seen:
+            continue
+        seen.add(f)
+        if f.startswith(root):
+            continue
+        meta = ctx.facts.fns.get(f.split("::{closure")[0], {})
+        if meta.get("vis") == "Public":
+            return False
+        cs = callers.get(f.split("::{closure")[0], set()) | callers.get(f, set())
+        if not cs:
+            return False
+        work.extend(cs)
+    return True
+
+
 def _w(o):
     for e in reversed(o.events):
         if "span" in e:
@@ -208,7 +249,7 @@ def r1_r2(ctx, R):
         ctx.ok("C19.R2", "openat only in %s, relative to self.%s" % (opener, R["fd_f"]))
     callers = calls_named(ctx.facts, opener)
     cf = sorted({b["name"] for b, i, t in callers})
-    if not all(c.startswith(R["get"]) for c in cf):
+    if not all(_only_from(ctx, c, R["get"]) for c in cf):
         ctx.violation("C19.R2", "C19.R2|opener-callers", "%s is also called outside `get`: %s" % (opener, cf))
     else:
         ctx.ok("C19.R2", "%s is called only from get (%d sites)" % (opener, len(callers)))
@@ -260,15 +301,20 @@ def r1_r2(ctx, R):
 def r4_lookup(ctx, R, opener):
     co = [n for n, b in ctx.facts.bodies.items() if n.startswith(R["get"] + "::{closure#0}") and n.count("{closure") == 1 and b["kind"] == "closure"][0]
     # the blocking closure and how its `should_gzip` capture is computed
-    outs = ctx.px(co)
+    units = {opener, R["validate"]} | {f["path"] for f in ctx.facts.fns.values() if f["path"].split("::")[-1] == "should_gzip"}
+    outs = ctx.px(co, inline=helper_inline(ctx, own=(R["dir"], R["node"]), never=units), key="helpers")
     cap_ok = False
+    blocking_defs = set()
+    sg_caps = set()
     for o in outs:
         for e in o.events:
             if e["k"] == "call" and e["callee"].get("path") == "tokio::task::spawn_blocking":
                 clo = e["args"][0]
                 if is_agg(clo):
+                    blocking_defs.add(clo[2])
                     for name, t in clo[4]:
-                        if name == "should_gzip" or (isinstance(t, tuple) and "should_gzip" in repr(t)):
+                        if boolish(ctx, _capture_type(ctx, clo[2], name)):
+                            sg_caps.add(name)
                             s = repr(t)
                             # auto_gzip && should_gzip(hdrs): the value is the should_gzip call on paths where auto_gzip is known true, const 0 otherwise
                             auto = [v for tt, v in o.cons.known.items() if isinstance(tt, tuple) and tt[0] == "field" and tt[2] == R["auto_f"]]
@@ -280,14 +326,27 @@ def r4_lookup(ctx, R, opener):
         ctx.ok("C19.R4", ".gz lookup enabled iff auto_gzip and should_gzip(request headers)")
     else:
         ctx.violation("C19.R4", "C19.R4|condition", "UNRECOGNISED: the .gz lookup condition is not `auto_gzip && should_gzip(headers)`")
-    blocking = [n for n, b in ctx.facts.bodies.items() if n.startswith(co + "::{closure#0}") and n.count("{closure") == 2 and b["kind"] == "closure"]
-    if len(blocking) != 1:
-        ctx.violation("C19.R4", "C19.R4|closure", "UNRECOGNISED blocking closure")
+    blocking = sorted(blocking_defs)
+    if len(blocking) != 1 or len(sg_caps) != 1:
+        ctx.violation("C19.R4", "C19.R4|closure", "UNRECOGNISED blocking closure (closures handed to spawn_blocking: %s; two-valued captures: %s)" % (blocking, sorted(sg_caps)))
         return
-    SG = ("sym", "should_gzip")
-    BUF = ("sym", "validated_path_bytes")
-    ctx_px = ctx.px
-    outs = ctx.px(blocking[0])
+    sg_cap = next(iter(sg_caps))
+    node_flags = [f["name"] for f in ctx.facts.adts[R["node"]]["variants"][0]["fields"] if boolish(ctx, f["ty"])]
+    # crate-local helpers of the lookup (e.g. an extracted "try the .gz sibling" method) are expanded; the opener stays a call
+    outs = ctx.px(blocking[0], inline=helper_inline(ctx, own=(R["dir"], R["node"]), never=(opener,)), key="helpers")
+    # which of the node's two flags says "this is the .gz variant": the one that is not a copy of the directory's setting
+    gz_names = set()
+    for o in outs:
+        if o.kind == "return" and is_agg(o.value) and o.value[3] == "Ok" and is_agg(agg_get(o.value, "0")):
+            nd = agg_get(o.value, "0")
+            for fname in node_flags:
+                if is_const(agg_get(nd, fname)):
+                    gz_names.add(fname)
+    if len(gz_names) != 1:
+        ctx.violation("C19.R4", "C19.R4|node-flags", "UNRECOGNISED: the node's gzip flag (a constant per lookup row) is not found uniquely among %s" % node_flags)
+        return
+    R["gz_f"] = next(iter(gz_names))
+    R["node_auto_f"] = [f for f in node_flags if f != R["gz_f"]][0]
     nrows = 0
     gzflag_rows = 0
     for o in outs:
@@ -324,11 +383,11 @@ def r4_lookup(ctx, R, opener):
             tails.append(("".join(t for t in tail if t is not None), base, tail))
         sgv = None
         for t, val in o.cons.known.items():
-            if isinstance(t, tuple) and t[0] == "field" and t[2] == "should_gzip":
+            if isinstance(t, tuple) and t[0] == "field" and t[2] == sg_cap:
                 sgv = val
         is_ok = is_agg(v) and v[3] == "Ok"
         node = agg_get(v, "0") if is_ok else None
-        gz = agg_get(node, "is_gzipped") if is_agg(node) else None
+        gz = agg_get(node, R["gz_f"]) if is_agg(node) else None
         bad = []
         for lit, base, tail in tails:
             if lit not in ("\0", ".gz\0"):
@@ -377,7 +436,7 @@ def r4_lookup(ctx, R, opener):
     # is_gzipped: true is constructed only there
     sites = aggregates(ctx.facts, R["node"])
     for b, i, st in sites:
-        if not b["name"].startswith(R["get"]):
+        if not _only_from(ctx, b["name"], R["get"]):
             ctx.violation("C19.R5", "C19.R5|node-site", "a node is constructed outside get: %s" % b["name"])
 
 
@@ -388,10 +447,10 @@ def r5_headers(ctx, R):
         ctx.violation("C19.R5", "C19.R5|fns", "UNRECOGNISED: encoding / add_encoding_headers not found")
         return
     S = ("deref", ("param", 1))
-    gzf = ("field", S, "is_gzipped")
-    autof = ("field", S, "auto_gzip")
+    gzf = ("field", S, R.get("gz_f", "is_gzipped"))
+    autof = ("field", S, R.get("node_auto_f", "auto_gzip"))
     # field names by role: the node's two bools; which is which comes from the constructor rows (R4): is_gzipped is the one set to 1 on the .gz row
-    for o in ctx.px(enc[0]):
+    for o in ctx.px(enc[0], inline=helper_inline(ctx, own=(R["node"],)), key="helpers"):
         if o.kind != "return":
             continue
         g = o.cons.known.get(gzf)
@@ -433,7 +492,7 @@ def r5_config_plumbing(ctx, R):
     n = 0
     for fn in ctors:
         b = ctx.facts.bodies[fn]
-        bparams = [i for i in range(1, b["arg_count"] + 1) if b["locals"][i]["s"] == "bool"]
+        bparams = [i for i in range(1, b["arg_count"] + 1) if boolish(ctx, b["locals"][i]["s"])]
         for o in ctx.px(fn):
             if o.kind != "return":
                 continue
@@ -465,7 +524,7 @@ def r5_config_plumbing(ctx, R):
             for f in ctx.facts.fns.values():
                 if (f.get("impl_self") or "") == a["path"] and not f.get("impl_trait"):
                     body = ctx.facts.bodies[f["path"]]
-                    if body["arg_count"] == 2 and body["locals"][2]["s"] == "bool" and body["locals"][0]["s"] == a["path"]:
+                    if body["arg_count"] == 2 and boolish(ctx, body["locals"][2]["s"]) and body["locals"][0]["s"] == a["path"]:
                         outs = [o for o in ctx.px(f["path"]) if o.kind == "return"]
                         v = outs[0].value if len(outs) == 1 else None
                         got = agg_get(v, fld) if is_agg(v) else (v[3] if isinstance(v, tuple) and v and v[0] == "upd" and v[2] == ("f", fld) else None)
